@@ -789,9 +789,12 @@ pub fn pattern(spec_weight: f64) -> impl Strategy<Value = Pat> {
 
 pub fn rec_text() -> impl Strategy<Value = String> {
     prop_oneof![
-        1 => Just(String::new()),
-        3 => "[a-z:]{1,12}",
-        4 => text(12),
+        25 => Just(String::new()),
+        75 => "[a-z:]{1,12}",
+        100 => text(12),
+        // now and then a value around the sizes of typical I/O buffers (4/8/16/64 KiB), handed over in one piece
+        2 => (prop::sample::select(vec![4095usize, 4096, 4097, 8191, 8192, 8193, 16384, 16385, 65536, 70_000]), prop::sample::select(vec!['a', 'é', '漢', '😀']), 0usize..3)
+            .prop_map(|(n, c, lead)| format!("{}{}", "x".repeat(lead), c.to_string().repeat((n - lead) / c.len_utf8()))),
     ]
 }
 
